@@ -132,9 +132,12 @@ bool to_cdata(const cset_t& s, const int n, std::vector<cdata_t>& out, std::stri
             {
                 for (int q = 0; q < n; ++q)
                 {
-                    // symmetric by construction: the upper triangle is mirrored
-                    const int lo = std::min(r, q), hi = std::max(r, q);
-                    c.P(r, q)    = s.mat[i][static_cast<size_t>(lo * n + hi)];
+                    // symmetric by construction (the upper triangle is mirrored), except for the library's own quadratic
+                    // constraints with inner == 1: there the matrix is used as generated (general, NOT symmetric P: nothing in
+                    // the library requires symmetry, convex()/strong_convexity() use a general eigen-decomposition)
+                    const bool general = (c.kind == c05::k_quad_eq || c.kind == c05::k_quad_ineq) && c.inner == 1;
+                    const int  lo = std::min(r, q), hi = std::max(r, q);
+                    c.P(r, q)     = general ? s.mat[i][static_cast<size_t>(r * n + q)] : s.mat[i][static_cast<size_t>(lo * n + hi)];
                 }
             }
             if (!c.P.allFinite())
@@ -212,7 +215,8 @@ void gen_constraint(cset_t& s, const int n, const bool integers, const VectorXd*
     {
         vec   = vecn(3.0);
         value = *gen_coef(integers, 5.0);
-        inner = (kind >= c05::k_func_eq) ? *gen::range<int>(0, 1) : 0;
+        // functional: which wrapped function; quadratic: 1 = general (non-symmetric) P
+        inner = (kind >= c05::k_func_eq) ? *gen::range<int>(0, 1) : ((kind == c05::k_quad_eq || kind == c05::k_quad_ineq) && *gen::chance(35) ? 1 : 0);
         if (kind == c05::k_quad_eq || kind == c05::k_quad_ineq || (kind >= c05::k_func_eq && inner == 0))
         {
             // symmetric P of either definiteness: generated upper triangle (mirrored on use), or +-D'D
@@ -595,6 +599,7 @@ verdict_t check_fcase(const fcase_t& c, ctx_t& ctx)
         }
         ev.push_back(c05::evaluate(cd, x));
         ctx.label(std::string("kind-") + c05::kind_name(cd.kind));
+        ctx.label_if((cd.kind == c05::k_quad_eq || cd.kind == c05::k_quad_ineq) && cd.inner == 1, "quadratic-constraint-non-symmetric-P");
         if (c05::is_eq(cd.kind))
         {
             ++neq;
